@@ -7,6 +7,7 @@ import (
 	"fmt"
 	"os"
 	"path/filepath"
+	"regexp"
 	"runtime/debug"
 	"sort"
 	"strings"
@@ -39,7 +40,7 @@ type Check struct {
 
 var registry = map[string]*Check{}
 
-func Register(c *Check) { registry[c.ID] = c }
+func Register(c *Check)    { registry[c.ID] = c }
 func Get(id string) *Check { return registry[id] }
 func IDs() []string {
 	var r []string
@@ -83,10 +84,10 @@ type Run struct {
 	Notes   []string
 }
 
-func (r *Run) Fault(kind string)        { r.Faults[kind]++ }
+func (r *Run) Fault(kind string)         { r.Faults[kind]++ }
 func (r *Run) FaultN(kind string, n int) { r.Faults[kind] += n }
-func (r *Run) Probe(name string)        { r.Probes[name]++ }
-func (r *Run) State(key string)         { r.States[key] = struct{}{} }
+func (r *Run) Probe(name string)         { r.Probes[name]++ }
+func (r *Run) State(key string)          { r.States[key] = struct{}{} }
 
 // Case records one explored case. evaluations counts all calls;
 // distinct_nontrivial counts distinct keys recorded with nontrivial=true.
@@ -99,7 +100,7 @@ func (r *Run) Case(key string, nontrivial bool) {
 	}
 }
 
-func (r *Run) Choose(kind string, n int) int { return r.Tape.Choose(kind, n) }
+func (r *Run) Choose(kind string, n int) int       { return r.Tape.Choose(kind, n) }
 func (r *Run) Bool(kind string, num, den int) bool { return r.Tape.Bool(kind, num, den) }
 
 func (r *Run) Logf(format string, a ...interface{}) {
@@ -117,7 +118,7 @@ func (r *Run) Note(format string, a ...interface{}) {
 // Violate records the violation and aborts the run.
 func (r *Run) Violate(pred string, format string, a ...interface{}) {
 	if r.Viol == nil {
-		v := &Violation{Property: r.Check.ID, Pred: pred, Detail: fmt.Sprintf(format, a...)}
+		v := &Violation{Property: r.Check.ID, Pred: pred, Detail: sanitize(fmt.Sprintf(format, a...))}
 		if r.W != nil {
 			v.Seq = r.W.Seq
 			v.SimTime = r.W.Elapsed().String()
@@ -127,6 +128,15 @@ func (r *Run) Violate(pred string, format string, a ...interface{}) {
 		r.Viol = v
 	}
 	panic(violationAbort{})
+}
+
+var reAddr = regexp.MustCompile(`\+?0x[0-9a-fA-F]+\??`)
+var reGoroutine = regexp.MustCompile(`goroutine \d+`)
+
+// sanitize removes what differs between two executions of the same history from a violation text (addresses,
+// goroutine numbers in stack traces): the text is part of the recorded history.
+func sanitize(s string) string {
+	return reGoroutine.ReplaceAllString(reAddr.ReplaceAllString(s, "0x?"), "goroutine N")
 }
 
 // Trouble reports harness trouble (never a violation) and aborts the run.
@@ -327,7 +337,7 @@ func Minimise(c *Check, tier string, seed uint64, index int, vals []int, pred st
 
 type Finding struct {
 	Property  string `json:"property"`
-	Status    string `json:"status"` // "known" (suppresses, prints KNOWN-FINDING) | "fixed" (suppresses nothing)
+	Status    string `json:"status"`    // "known" (suppresses, prints KNOWN-FINDING) | "fixed" (suppresses nothing)
 	Signature string `json:"signature"` // prefix of Violation.Pred
 	What      string `json:"what"`
 	Commit    string `json:"commit,omitempty"`
